@@ -25,15 +25,33 @@ PKG_REL = Path("src") / "aiomysensors"
 
 
 def load_catalogue():
+    """The hand-written catalogue plus the independently seeded patches under /verif/seeded."""
+    import json
+
     from . import mutants
 
-    return mutants.MUTANTS
+    cat = list(mutants.MUTANTS)
+    sd = VERIF / "seeded"
+    if sd.is_dir():
+        for d in sorted(sd.iterdir()):
+            mf = d / "meta.json"
+            pf = d / "patch.diff"
+            if mf.exists() and pf.exists():
+                m = json.loads(mf.read_text())
+                pid = m["breaks_property"]
+                cat.append({"id": m["id"], "kind": "break", "props": [pid], "edits": [], "patch": str(pf), "rules": {pid: m.get("caught_by_rules_of_target_property", [])}, "canary": False, "note": m.get("change", "")})
+    return cat
 
 
 def make_variant(mut: dict, dest: Path, repo: Path = REPO) -> tuple[bool, str]:
     """Copy repo/src to dest/src and apply the mutant's edits. False if an anchor is missing."""
     src = repo / "src"
     shutil.copytree(src, dest / "src", ignore=shutil.ignore_patterns("__pycache__", "*.pyc"))
+    if mut.get("patch"):
+        r = subprocess.run(["patch", "-p1", "-s", "-d", str(dest), "-i", mut["patch"]], capture_output=True, text=True, check=False)
+        if r.returncode != 0:
+            return False, f"patch does not apply: {(r.stdout + r.stderr)[:120]}"
+        return True, ""
     for rel, find, repl in mut["edits"]:
         p = dest / PKG_REL / rel
         if not p.exists():
